@@ -1,7 +1,10 @@
 package constraint
 
 import (
+	"net/netip"
 	"net/url"
+	"regexp"
+	"strings"
 
 	jschema "github.com/jsightapi/jsight-schema-go-library"
 	"github.com/jsightapi/jsight-schema-go-library/bytes"
@@ -36,10 +39,44 @@ func (Uri) String() string {
 
 func (Uri) Validate(value bytes.Bytes) {
 	val := value.Unquote().String()
-	u, err := url.ParseRequestURI(val)
-	if err != nil || !u.IsAbs() || u.Hostname() == "" {
+	u, err := url.Parse(val)
+	if err != nil || !u.IsAbs() || u.Hostname() == "" || !isURI(val, u) {
 		panic(errors.Format(errors.ErrInvalidUri, val))
 	}
+}
+
+// ipvFuture is the IPvFuture of RFC 3986 ("v" 1*HEXDIG "." 1*( unreserved / sub-delims / ":" )).
+var ipvFuture = regexp.MustCompile(`^[vV][0-9A-Fa-f]+\.[A-Za-z0-9\-._~!$&'()*+,;=:]+$`)
+
+// isURI reports whether s, which url.Parse has parsed to u and which has a scheme
+// and a host, is free of what url.Parse lets through although RFC 3986 doesn't.
+//
+// url.Parse keeps the characters of the path, the query and the fragment as they
+// are, so it admits the characters which can't appear anywhere in a URI and "#"
+// inside the fragment. It cuts the userinfo at the last "@" and admits "@" inside
+// it. For a host in square brackets it only looks for the closing bracket.
+func isURI(s string, u *url.URL) bool {
+	if strings.ContainsAny(s, " \"<>\\^`{|}") || strings.Count(s, "#") > 1 {
+		return false
+	}
+
+	// u has a host, so the authority is what follows the first "//".
+	authority := s[strings.Index(s, "//")+2:]
+	if i := strings.IndexAny(authority, "/?#"); i != -1 {
+		authority = authority[:i]
+	}
+	if strings.Count(authority, "@") > 1 {
+		return false
+	}
+
+	// IP-literal = "[" ( IPv6address / IPvFuture ) "]"
+	if strings.ContainsAny(u.Host, "[]") {
+		h := u.Hostname()
+		if a, err := netip.ParseAddr(h); (err != nil || !a.Is6()) && !ipvFuture.MatchString(h) {
+			return false
+		}
+	}
+	return true
 }
 
 func (Uri) ASTNode() jschema.RuleASTNode {
